@@ -13,6 +13,7 @@ import (
 	"github.com/libp2p/go-libp2p/core/peer"
 	"github.com/libp2p/go-libp2p/core/peerstore"
 	"github.com/libp2p/go-libp2p/core/protocol"
+	ma "github.com/multiformats/go-multiaddr"
 	mh "github.com/multiformats/go-multihash"
 
 	kaddht "github.com/libp2p/go-libp2p-kad-dht"
@@ -31,7 +32,9 @@ func init() {
 	rtStub := []string{"host.Host/network (simhost)", "crawler.Crawler (stub reporting a drawn peer set, through fullrt.WithCrawler)", "pb.MessageSender (level A)"}
 	sim.Register(&sim.Scenario{Prop: "C16", Name: "fullrt-nearest", Weight: 3, Run: func(s *sim.Sim) { runC16Nearest(s, false) },
 		Real: rtReal, Stub: rtStub,
-		Faults: []string{"time_advance", "probe_read_during_crawl", "probe_crawl_replaced_table", "probe_limit_set_not_biting", "probe_result_shorter_than_k", "probe_crawl_by_trigger", "probe_crawl_by_interval", "probe_peer_refound_in_other_ip_group", "probe_returned_peer_refound_in_other_ip_group"}})
+		Faults: []string{"time_advance", "probe_read_during_crawl", "probe_crawl_replaced_table", "probe_limit_set_not_biting", "probe_result_shorter_than_k", "probe_crawl_by_trigger", "probe_crawl_by_interval", "probe_peer_refound_in_other_ip_group", "probe_returned_peer_refound_in_other_ip_group",
+			"probe_crawled_peer_dns_name_next_to_ip", "probe_peerstore_entry_replaced_while_peer_reported", "probe_changed_peer_kept_in_table", "probe_changed_peer_not_in_table",
+			"probe_changed_peer_among_k_nearest_limit_set", "probe_changed_peer_nearer_than_kth_limit_set"}})
 	sim.Register(&sim.Scenario{Prop: "C16", Name: "fullrt-ip-limit", Weight: 2, Run: func(s *sim.Sim) { runC16Nearest(s, true) },
 		Real: rtReal, Stub: rtStub,
 		Faults: []string{"probe_ip_group_over_limit", "probe_limit_precondition_holds", "probe_limit_precondition_changed_between_crawls"}})
@@ -83,6 +86,7 @@ type c16RTOpts struct {
 	Boot      []*simnet.Peer
 	SetBoot   bool
 	Crawler   crawler.Crawler // nil: option omitted
+	Host      host.Host       // non-nil: handed to NewFullRT instead of the simulated host (a wrapper of it)
 	SetSender bool
 	SetValid  bool
 	NoProv    bool
@@ -147,8 +151,12 @@ func buildC16RT(s *sim.Sim, u *simnet.Universe, h *simhost.Host, o c16RTOpts) (*
 	if o.PMOpts {
 		opts = append(opts, fullrt.WithProviderManagerOptions(records.CleanupInterval(20*time.Minute)))
 	}
+	var hh host.Host = h
+	if o.Host != nil {
+		hh = o.Host
+	}
 	op := r.Ops.Go(s, "NewFullRT", func() (any, error) {
-		rt, err := fullrt.NewFullRT(h, o.Prefix, opts...)
+		rt, err := fullrt.NewFullRT(hh, o.Prefix, opts...)
 		if err != nil {
 			return nil, err
 		}
@@ -195,11 +203,31 @@ func (r *c16RT) read(key string) ([]peer.ID, bool) {
 // checkStat compares the table reported by Stat() with the peers the crawl
 // reported as found. (All scripted peers have a public address and stay
 // connected, so the repository's public-address table filter keeps them all.)
+//
+// A peer whose peerstore entry was replaced while the crawl reported it (c.Alt)
+// has had no public IP address since: whether the table keeps it is the
+// repository's table filter, not C16. For such a peer - only - Stat() is
+// taken as the truth, and c.Peers is narrowed to the peers Stat() lists.
 func (r *c16RT) checkStat(c *c16Crawl) {
 	st := r.RT.Stat()
 	var got []peer.ID
 	for _, p := range st {
 		got = append(got, p)
+	}
+	if len(c.Alt) > 0 {
+		in := idSet(got)
+		var keep []*simnet.Peer
+		for _, p := range c.Peers {
+			if _, unsure := c.Alt[p.ID]; unsure && !in[p.ID] {
+				r.S.Count("probe_changed_peer_not_in_table")
+				delete(c.Alt, p.ID)
+				continue
+			} else if unsure {
+				r.S.Count("probe_changed_peer_kept_in_table")
+			}
+			keep = append(keep, p)
+		}
+		c.Peers = keep
 	}
 	if !sameSet(got, simnet.IDs(c.Peers)) {
 		r.S.Violate("stat-vs-crawl", "after crawl %d Stat() lists {%s}, the crawl reported {%s} as found", c.Idx, sortedNames(r.U, got), sortedNames(r.U, simnet.IDs(c.Peers)))
@@ -296,6 +324,34 @@ func c16MoveProbes(s *sim.Sim, prev, cur *c16Crawl, returned map[peer.ID]bool, L
 	}
 }
 
+// c16AddrKindProbes counts, for one read judged against crawl c: a crawled
+// peer with a DNS name next to IP addresses; and, with the limit set, a table
+// peer whose entry was replaced by addresses without an IP while it was
+// reported (c.Alt) among the brute-force K nearest of the key - the peers an
+// exact result must list - and strictly inside them (a result that leaves it
+// out must also be padded with a farther peer).
+func c16AddrKindProbes(s *sim.Sim, c *c16Crawl, key simnet.Kad, K, L int) {
+	for _, p := range c.Peers {
+		if c16MixedAddrs(c.addrsOf(p)) {
+			s.Count("probe_crawled_peer_dns_name_next_to_ip")
+			break
+		}
+	}
+	if L <= 0 || len(c.Alt) == 0 {
+		return
+	}
+	want := c.nearest(key, K)
+	for i, p := range want {
+		if _, ok := c.Alt[p]; ok {
+			s.Count("probe_changed_peer_among_k_nearest_limit_set")
+			if i < len(want)-1 {
+				s.Count("probe_changed_peer_nearer_than_kth_limit_set")
+			}
+			break
+		}
+	}
+}
+
 // c16RefoundElsewhere: some peer found by both crawls is in other IP groups in cur than in prev.
 func c16RefoundElsewhere(prev, cur *c16Crawl) bool {
 	was := map[peer.ID]string{}
@@ -359,17 +415,25 @@ func runC16Nearest(s *sim.Sim, crowded bool) {
 	default:
 		maxPerGroup = []int{0, n}[s.Draw("addr-spread", 2)]
 	}
-	c16AssignAddrs(u, rng, maxPerGroup)
+	// Share of peers advertising addresses without an IP (DNS names only, or a
+	// DNS name next to IP addresses; see c16AssignAddrs): none, 1/8, 2/8 each.
+	nonIP := []int{0, 2, 4}[s.Draw("addr-kinds", 3)]
+	c16AssignAddrs(u, rng, maxPerGroup, nonIP)
+	// For how many of the peers a crawl reports (none, up to one, up to two) the
+	// host's peerstore entry is replaced - by DNS names only, or by nothing -
+	// around the moment the crawl reports them (c16_addrchange.go).
+	maxChanges := s.Draw("addr-change-while-reported", 3)
 	// How many peers are found at other addresses by the next crawl: none, a
 	// quarter, half of them. The class of the input (no group above the limit /
 	// crowded) is the same for every crawl of the run.
 	moveOf8 := []int{0, 2, 4}[s.Draw("addr-moves", 3)]
 	interval := []time.Duration{10 * time.Minute, time.Hour}[s.Draw("interval", 2)]
 	h := simhost.New(s, u.Self.ID, u.Self.Addrs, u.Name)
-	stub := &stubCrawler{S: s, H: h}
-	r, ctor := buildC16RT(s, u, h, c16RTOpts{Prefix: "/sim", K: K, SetK: true, L: L, SetL: true, Interval: interval,
+	wh := newC16Host(h)
+	stub := &stubCrawler{S: s, H: h, PS: wh.PS}
+	r, ctor := buildC16RT(s, u, h, c16RTOpts{Prefix: "/sim", K: K, SetK: true, L: L, SetL: true, Interval: interval, Host: wh,
 		BulkPar: s.Range("bulk-par", 1, 4), Boot: c16PickPeers(u, rng, s.Range("boot", 0, 2)), SetBoot: true, Crawler: stub, SetSender: true, SetValid: true})
-	s.Summary["cfg"] = fmt.Sprintf("N=%d K=%d limit=%d crowded=%v interval=%v addrMoves=%d/8", n, K, L, crowded, interval, moveOf8)
+	s.Summary["cfg"] = fmt.Sprintf("N=%d K=%d limit=%d crowded=%v interval=%v addrMoves=%d/8 dnsNextToIP=%d/8 addrChanges<=%d", n, K, L, crowded, interval, moveOf8, nonIP, maxChanges)
 	if r.RT == nil {
 		s.Violate("ctor-failed", "NewFullRT with all options set failed: done=%v err=%v panic=%s", ctor.Done, ctor.Err, firstLine(ctor.Panic))
 		r.close()
@@ -387,12 +451,13 @@ func runC16Nearest(s *sim.Sim, crowded bool) {
 			returned[p] = true
 		}
 		s.Tracef("%s key=%s -> [%s]", what, key, names(u, res))
-		if rule, msg := c16JudgeGCP(u, res, simnet.KadOfKey(key), K, L, c); rule != "" {
+		if rule, msg := c16JudgeGCPAny(u, res, simnet.KadOfKey(key), K, L, c); rule != "" {
 			s.Violate(rule, "GetClosestPeers(%s) after crawl %d (K=%d, limit=%d): %s", key, c.Idx, K, L, msg)
 		}
 		if len(res) < K {
 			s.Count("probe_result_shorter_than_k")
 		}
+		c16AddrKindProbes(s, c, simnet.KadOfKey(key), K, L)
 		if _, m := c.maxGroup(); L > 0 && m > L {
 			s.Count("probe_ip_group_over_limit")
 		} else if crowded {
@@ -421,16 +486,30 @@ func runC16Nearest(s *sim.Sim, crowded bool) {
 		}
 		if rd > 1 && moveOf8 > 0 {
 			// the network changes between two crawls: some peers are at other addresses now
-			k := c16MoveAddrs(u, rng, maxPerGroup, func(int) bool { return rng.Intn(8) < moveOf8 })
+			k := c16MoveAddrs(u, rng, maxPerGroup, nonIP, func(int) bool { return rng.Intn(8) < moveOf8 })
 			s.Tracef("%d peers changed IP groups", k)
 		}
 		spec := c16DrawSpec(s, u, rng)
 		cur := newC16Crawl(rd, spec.OK)
 		spec.Addrs = cur.Addrs
+		if maxChanges > 0 {
+			spec.Change = c16DrawChanges(rng, spec.OK, maxChanges)
+		}
 		c16MoveProbes(s, prev, cur, returned, L)
 		s.Tracef("crawl %d reports ok={%s} fail=%d", rd, names(u, simnet.IDs(spec.OK)), len(spec.Fail))
 		s.Release(run, spec)
 		s.Quiesce()
+		for _, p := range spec.OK {
+			if ch := spec.Change[p.ID]; ch != nil && wh.PS.Fired(ch) {
+				// the crawl found p at cur.Addrs[p] or at ch.New
+				if cur.Alt == nil {
+					cur.Alt = map[peer.ID][]ma.Multiaddr{}
+				}
+				cur.Alt[p.ID] = ch.New
+				s.Count("probe_peerstore_entry_replaced_while_peer_reported")
+				s.Tracef("%s: entry replaced after %d reads by %d addresses without an IP", p.Name, ch.AfterReads, len(ch.New))
+			}
+		}
 		if s.Chance("read-during-crawl", 1, 2) {
 			// Run has not returned: the table is still the previous crawl's
 			s.Count("probe_read_during_crawl")
@@ -490,7 +569,8 @@ func runC16SwapRace(s *sim.Sim) {
 	if L <= 0 {
 		maxPerGroup = []int{0, n}[s.Draw("addr-spread", 2)]
 	}
-	c16AssignAddrs(u, rng, maxPerGroup)
+	nonIP := []int{0, 2, 4}[s.Draw("addr-kinds", 3)] // peers advertising a DNS name next to their IPs, see runC16Nearest
+	c16AssignAddrs(u, rng, maxPerGroup, nonIP)
 	// peers found at other addresses by the next crawl (see runC16Nearest): each
 	// candidate crawl is judged under its own address assignment
 	moveOf8 := []int{0, 2, 4}[s.Draw("addr-moves", 3)]
@@ -498,7 +578,7 @@ func runC16SwapRace(s *sim.Sim) {
 	stub := &stubCrawler{S: s, H: h}
 	r, ctor := buildC16RT(s, u, h, c16RTOpts{Prefix: "/sim", K: K, SetK: true, L: L, SetL: true, Interval: time.Hour,
 		Boot: c16PickPeers(u, rng, s.Range("boot", 0, 2)), SetBoot: true, Crawler: stub, SetSender: true, SetValid: true})
-	s.Summary["cfg"] = fmt.Sprintf("N=%d K=%d limit=%d addrMoves=%d/8", n, K, L, moveOf8)
+	s.Summary["cfg"] = fmt.Sprintf("N=%d K=%d limit=%d addrMoves=%d/8 dnsNextToIP=%d/8", n, K, L, moveOf8, nonIP)
 	if r.RT == nil {
 		s.Violate("ctor-failed", "NewFullRT with all options set failed: done=%v err=%v panic=%s", ctor.Done, ctor.Err, firstLine(ctor.Panic))
 		r.close()
@@ -520,7 +600,7 @@ func runC16SwapRace(s *sim.Sim) {
 			break
 		}
 		if ph > 0 && moveOf8 > 0 {
-			k := c16MoveAddrs(u, rng, maxPerGroup, func(int) bool { return rng.Intn(8) < moveOf8 })
+			k := c16MoveAddrs(u, rng, maxPerGroup, nonIP, func(int) bool { return rng.Intn(8) < moveOf8 })
 			s.Tracef("%d peers changed IP groups", k)
 		}
 		spec := c16DrawSpec(s, u, rng)
@@ -691,10 +771,11 @@ func runC16FullCrawl(s *sim.Sim, recrawl bool) {
 	L := s.Draw("limit", 3)
 	u := simnet.NewUniverse(uint64(s.Draw("universe", 1<<16)), n)
 	rng := newSubRng(s, "world")
+	nonIP := []int{0, 2, 4}[s.Draw("addr-kinds", 3)] // peers advertising a DNS name next to their IPs, see runC16Nearest
 	if L > 0 {
-		c16AssignAddrs(u, rng, L)
+		c16AssignAddrs(u, rng, L, nonIP)
 	} else {
-		c16AssignAddrs(u, rng, []int{0, n}[s.Draw("addr-spread", 2)])
+		c16AssignAddrs(u, rng, []int{0, n}[s.Draw("addr-spread", 2)], nonIP)
 	}
 	faultLevel := s.Draw("fault-level", 3)
 	w := genC16World(s, u, rng, faultLevel)
@@ -741,7 +822,7 @@ func runC16FullCrawl(s *sim.Sim, recrawl bool) {
 	boot := c16PickPeers(u, rng, s.Range("boot", 1, 3))
 	r, ctor := buildC16RT(s, u, h, c16RTOpts{Prefix: "/sim", K: K, SetK: true, L: L, SetL: true, Interval: time.Hour,
 		Boot: boot, SetBoot: true, Crawler: oc, SetSender: true, SetValid: true})
-	s.Summary["cfg"] = fmt.Sprintf("N=%d K=%d limit=%d boot=%d faults=%d connectTimeout=%v recrawl=%v forget=%d timeJumps=1/%d", n, K, L, len(boot), faultLevel, connectTimeout, recrawl, forget, tickDen)
+	s.Summary["cfg"] = fmt.Sprintf("N=%d K=%d limit=%d boot=%d faults=%d connectTimeout=%v recrawl=%v forget=%d timeJumps=1/%d dnsNextToIP=%d/8", n, K, L, len(boot), faultLevel, connectTimeout, recrawl, forget, tickDen, nonIP)
 	if r.RT == nil {
 		s.Violate("ctor-failed", "NewFullRT with all options set failed: done=%v err=%v panic=%s", ctor.Done, ctor.Err, firstLine(ctor.Panic))
 		r.close()
@@ -1201,7 +1282,7 @@ func runC16NoBucket(s *sim.Sim) {
 	n := s.Range("n", 1, 30)
 	u := simnet.NewUniverse(uint64(s.Draw("universe", 1<<16)), n)
 	rng := newSubRng(s, "world")
-	c16AssignAddrs(u, rng, n)
+	c16AssignAddrs(u, rng, n, []int{0, 2, 4}[s.Draw("addr-kinds", 3)])
 	h := simhost.New(s, u.Self.ID, u.Self.Addrs, u.Name)
 	stub := &stubCrawler{S: s, H: h}
 	r, ctor := buildC16RT(s, u, h, c16RTOpts{Prefix: "/sim", L: 0, SetL: true, Interval: time.Hour, SetBoot: true, Crawler: stub, SetSender: true, SetValid: true})
